@@ -1,7 +1,7 @@
 (* Proofs/TravDenoteWalk.v — C07 main theorem: walk (repaired model) = denote, for all well-formed runtime
    selectors, all graphs with unique map keys, all fuel. *)
 Require Import IP.Base.Bytes IP.DM.Value IP.Base.GoSem IP.Trav.Selector IP.Trav.Walk IP.Trav.SelectorSpec
-  IP.Trav.Path IP.Proofs.TravFacts IP.Proofs.TravSel IP.Proofs.TravStart IP.Proofs.TravPath IP.Proofs.TravDenote.
+  IP.Trav.Path IP.Proofs.TravFacts IP.Proofs.TravSel IP.Proofs.TravStart IP.Proofs.TravPath IP.Proofs.TravSlice IP.Proofs.TravDenote.
 From Coq Require Import Lia.
 Open Scope Z_scope.
 
@@ -13,16 +13,46 @@ Proof.
   unfold keys_graph in Hg. rewrite forallb_forall in Hg. exact (Hg _ Hin).
 Qed.
 
+(* strings and byte strings shorter than 2^63 (every Go string is) *)
+Fixpoint small_dm (v : dm) : bool :=
+  match v with
+  | DString s | DBytes s => len64 s <? two63
+  | DList l => forallb small_dm l
+  | DMap m => forallb (fun kv => small_dm (snd kv)) m
+  | _ => true
+  end.
+Definition small_graph (g : list (bytes * dm)) : bool := forallb (fun cb => small_dm (snd cb)) g.
+
+Lemma small_dm_top n : small_dm n = true -> small_top n.
+Proof. destruct n; cbn; auto; intros H; apply Z.ltb_lt in H; exact H. Qed.
+
+Lemma lookup_small n ps v : small_dm n = true -> lookup_seg n ps = Some v -> small_dm v = true.
+Proof.
+  intros Hk. unfold lookup_seg. destruct n; try discriminate.
+  - destruct (seg_index ps); [|discriminate]. unfold list_at.
+    destruct ((z <? 0) || (Z.of_nat (length l) <=? z))%bool; [discriminate|].
+    intros H. apply nth_error_In in H. cbn in Hk. rewrite forallb_forall in Hk. apply Hk; exact H.
+  - intros H. destruct (assoc_In _ _ _ H) as [k' Hin]. cbn in Hk.
+    rewrite forallb_forall in Hk. apply (Hk _ Hin).
+Qed.
+
+Lemma small_block g c b : small_graph g = true -> assoc c g = Some b -> small_dm b = true.
+Proof.
+  intros Hg Ha. destruct (assoc_In _ _ _ Ha) as [k' Hin].
+  unfold small_graph in Hg. rewrite forallb_forall in Hg. exact (Hg _ Hin).
+Qed.
+
 Section WD.
   Variable g : list (bytes * dm).
   Hypothesis Hg : keys_graph g = true.
+  Hypothesis Hsg : small_graph g = true.
 
   Theorem walk_denote f : forall ls P n s,
-    rt false s -> keys_ok n = true ->
+    rt false s -> keys_ok n = true -> small_dm n = true ->
     walk repaired g f ls P n s = denote g f ls P n (rep s []).
   Proof.
-    induction f as [|f IH]; intros ls P n s Hrt Hk; [reflexivity|].
-    rewrite walk_S, denote_S. unfold visit_event. rewrite (match_rep s [] n).
+    induction f as [|f IH]; intros ls P n s Hrt Hk Hsm; [reflexivity|].
+    rewrite walk_S, denote_S. unfold visit_event. rewrite (match_rep s false [] n Hrt (small_dm_top n Hsm)).
     destruct (is_container n); [|reflexivity].
     rewrite <- (children_rep n s []).
     rewrite (seqk_ext_in (explore_step repaired g (walk repaired g f) ls P n s)
@@ -30,6 +60,7 @@ Section WD.
     intros [ps v] Hin.
     pose proof (children_lookup repaired n s ps v Hk Hin) as Hl.
     pose proof (lookup_keys_ok n ps v Hk Hl) as Hkv.
+    pose proof (lookup_small n ps v Hsm Hl) as Hsv.
     destruct (explore_sstep s false [] n ps v Hrt Hl eq_refl) as (r & Er & Rr & Lr).
     unfold explore_step, denote_step; cbn [fst snd]. rewrite Er, <- Lr.
     destruct r as [s'|]; [|reflexivity].
@@ -38,7 +69,7 @@ Section WD.
     destruct (rep s' []) as [|t0 l0] eqn:Erep; [congruence|]. rewrite <- Erep.
     destruct v; try (apply IH; assumption).
     destruct (assoc c g) as [b|] eqn:Eb; [|reflexivity].
-    rewrite (IH (c :: ls) (P ++ [ps]) b s' Rr (keys_block g c b Hg Eb)). reflexivity.
+    rewrite (IH (c :: ls) (P ++ [ps]) b s' Rr (keys_block g c b Hg Eb) (small_block g c b Hsg Eb)). reflexivity.
   Qed.
 End WD.
 
@@ -55,10 +86,10 @@ Proof.
 Qed.
 
 Theorem walk_denote_sel g f root s :
-  keys_graph g = true -> keys_ok root = true -> srcw false s ->
+  keys_graph g = true -> small_graph g = true -> keys_ok root = true -> small_dm root = true -> srcw false s ->
   walk_adv repaired g f root s = denote_sel g f root s.
 Proof.
-  intros Hg Hk Hs. unfold walk_adv, denote_sel.
-  rewrite (walk_denote g Hg f [] [] root s (srcw_rt s false Hs) Hk).
+  intros Hg Hsg Hk Hsm Hs. unfold walk_adv, denote_sel.
+  rewrite (walk_denote g Hg Hsg f [] [] root s (srcw_rt s false Hs) Hk Hsm).
   rewrite (rep_src s false [] Hs), (enter_closed s [] Hs). reflexivity.
 Qed.
